@@ -55,6 +55,16 @@ CHECKS = {
    text="LwConverter transcribes the backward pass of post_selection_analyzer and executes every gate sequence on an abstract photon-count semantics (heralded gate: logical in, logical out; post-selected gate: ANY redistribution of its photons among its pairs; swap: exchanges pairs); TLC checks Safe (acceptance implies no intermediate non-logical state) and RefusesProp for all sequences in scope with the rule 'n-1 untouched qubits', and refutes the rule of the pinned tree with a 2-gate counterexample. Every enumerated sequence (sampled), dressed with random single-qubit gates, is converted by the real converter and the property itself is checked: accepted amplitudes on all dual-rail basis inputs = one scalar x qiskit's unitary, nothing accepted outside the qubit subspace; decisions are compared with the model (difference = DRIFT, not a violation).",
    note="Scope: 3 qubits / <= 3 multi-qubit gates and 4 qubits / <= 2-3 gates exhaustively at model level (4 gates in the thorough tier), replay sampled. Reference unitary from qiskit.quantum_info.Operator. " + TB,
    technique="TLC on LwConverter (decision procedure + abstract photon-count safety); enumerated sequences replayed through the real converter and Simulator"),
+ "C17": dict(
+   level="model_checking", design="DESIGN.md section 5 C17",
+   text="LwResults models a result as ordered inputs x ordered outputs -> value and the threshold / parity mappings (plain or inverted) as image-and-merge; TLC enumerates every ordered choice of distinct outputs in scope and every sequence of <= 2 mappings, checking that each input's total is kept, outputs stay distinct and binary, plain mappings are idempotent, amplitude-valued results are refused; every state is built as a real SimulationResult / SamplingResult, all three access paths are compared and the mapped result is compared with TLC's.",
+   note="2-3 modes, <= 2 photons per state, <= 3-4 outputs, 1-2 inputs; values are distinct integers so that mis-indexing shows. Precondition: distinct states in the input / output lists. " + TB,
+   technique="TLC enumerates LwResults contents and mapping sequences; dumped states replayed on the real result classes"),
+ "C18": dict(
+   level="model_checking", design="DESIGN.md section 5 C18",
+   text="LwStates defines +, merge, slices, counts and herald insertion / removal on occupation sequences; TLC checks the laws (herald round trip for every herald position set and photon numbers, associativity, commutativity, count and slice laws) on every operand choice in scope and records each operation's result, which is compared with the real State, AnnotatedState (label order shuffled) and herald helpers (dictionary keys and positions shuffled). Immutability is probed through every accessor; dB conversions and seeded random matrices are judged by the harness.",
+   note="Occupation lists of length <= 3 (4 thorough), entries <= 2, <= 2 heralds. The immutability, conversion and random-matrix clauses have no state-machine content and are harness probes. " + TB,
+   technique="TLC checks the algebraic laws of LwStates on all small operands; dumped states replayed on State / AnnotatedState / herald helpers; harness probes for immutability"),
  "C10": dict(
    level="model_checking", design="DESIGN.md section 5 C10",
    text="LwParams (value / min / max, ParameterDict) is checked exhaustively by TLC over ALL interleavings of accepted and rejected updates (no depth bound; invariants InBounds, BoundsNumeric; action property RejectedChangesNothing) and its behaviours are replayed into real Parameter / ParameterDict objects with the full state compared after every call. LwCircuit carries parameter references in its ops and a pval variable: TLC checks LiveParams (every circuit's exact matrix is the one for the current values after ANY step, including Parameter.set, rewrites, additions, copies), FrozenProp and frames; dumped and simulated programs are replayed and U, get_all_params and compile errors compared.",
